@@ -5,7 +5,7 @@ From Coq Require Import List PeanoNat.
 From GB Require Import Model Spec Inv Conc GI CIDef Lin LinDef.
 From GB Require Import O2_NoDel O2_Proof.
 From GB Require Import TB_Trace TB_Link TB_Proof TB_Counter TB_HW.
-From GB Require Import C4_Lists C4_Blocks C4_Inv C4_Proof C4_Trace C4_Final C4b_Proof C4b_Final.
+From GB Require Import C4_Lists C4_Blocks C4_Inv C4_Proof C4_Trace C4_Final C4b_Proof C4b_Final NoGap C4c_Closed.
 From GB Require Import TERM_Proof.
 From GB Require Import Frame LockInv Final RD_Base RD_Proof.
 Import ListNotations.
@@ -178,6 +178,23 @@ Theorem C04_first_step_partial : forall s' me acq ev e th leaf k cnt,
     ltb (fst e') (fst e) = false.
 Proof. exact (C04_first_general K V ltb HS order Heven H4 progs Hnd sched). Qed.
 
+(* the FIRST Scan step is an atomic "smallest stored key at or above the start key" query, taking effect at the
+   step that reads the pair (between the NewScanner call and the first Scan's return), however NewScanner landed.
+   True since fix f4bdcf5 (defect D6); it rests on the two invariants below. *)
+Theorem C04_first_step_is_atomic_query : forall s' me acq ev e th k cnt,
+  cstep ltb order s me = Stepped s' acq ev -> In (EPair e) ev ->
+  get_thread me (ths s) = Some th -> yielded (tpc th) = [] ->
+  hd_error (prog th) = Some (CScan k cnt) ->
+  In e (abs ltb s) /\ abs ltb s' = abs ltb s /\ ltb (fst e) k = false /\
+  forall e', In e' (abs ltb s) -> ltb (fst e') k = false -> ltb (fst e') (fst e) = false.
+Proof. exact (first_step_atomic K V ltb HS order Heven H4 progs Hnd sched). Qed.
+
+(* in every reachable state: off the leftmost path a node's first separator IS its separator in its parent (no
+   key range is routed by clamping there), and a descending Search/Scan or a cursor that has yielded nothing is
+   at or above the lower bound of the node it holds, or on the leftmost path *)
+Theorem C04_no_clamping_off_the_leftmost_path : nogap_st_b ltb s = true /\ scan_lo_b ltb s = true.
+Proof. exact (nogap_and_scan_lo_reachable K V ltb HS order Heven H4 progs Hnd sched). Qed.
+
 (* a pair that stays stored while the scan runs is among the pairs the scan returns when it reports its end *)
 Theorem C04_persistent_key_reported : forall sched2 me x s2 acq ev,
   along K V ltb order (fun s1 => In x (abs ltb s1) /\ scanning K V me s1) s sched2 ->
@@ -203,6 +220,8 @@ Print Assumptions C04_next_is_atomic_successor.
 Print Assumptions C04_end_means_no_successor.
 Print Assumptions C04_end_of_empty_scan.
 Print Assumptions C04_first_step_partial.
+Print Assumptions C04_first_step_is_atomic_query.
+Print Assumptions C04_no_clamping_off_the_leftmost_path.
 Print Assumptions C04_persistent_key_reported.
 
 (* ====================== C07 (model side): reads only under lock ====================== *)
